@@ -4,6 +4,8 @@ import Driver.C07
 import Driver.Parse
 import Driver.TextCmd
 import Driver.Tree
+import Driver.Closed
+import Driver.WF
 namespace Driver
 
 def handle (line : String) : String :=
@@ -18,6 +20,8 @@ def handle (line : String) : String :=
   | some (.atom "term" :: args) => runTerm args
   | some (.atom "c13" :: args) => runC13 args
   | some (.atom "eval" :: args) => runEval args
+  | some (.atom "gclosed" :: args) => runClosed args
+  | some (.atom "wfcheck" :: args) => runWF args
   | some [] => ""
   | _ => "bad-input"
 
